@@ -439,6 +439,20 @@ class Body:
                 kinds.add("residual" if d and d.endswith("from_residual") else "call:%s" % d)
         return kinds
 
+    def operand_ty(self, op):
+        """declared type of an operand that is a plain local or a typed constant (None otherwise)"""
+        if not isinstance(op, dict):
+            return None
+        p = op.get("copy") or op.get("move")
+        if p is not None:
+            if not p["p"] and 0 <= p["l"] < len(self.raw["locals"]):
+                return self.raw["locals"][p["l"]].get("ty")
+            return None
+        c = op.get("const")
+        if isinstance(c, dict):
+            return c.get("ty")
+        return None
+
     def decision_rows_dp(self, start=0, extra_classify=None):
         """finite decision table of a small function: set of (conditions, result) where conditions is a tuple of
         (printed discriminant origin, origin, 'eq'|'ne', value(s)) taken on switch edges whose discriminant is a program value
@@ -493,7 +507,7 @@ class Body:
             rows.add((conds, rets[-1] if rets else ("ret", end, ()), others))
         return rows
 
-    def decision_rows(self, start=0, limit=40000):
+    def decision_rows(self, start=0, limit=40000, events=False):
         """path-sensitive decision table of a small (acyclic) function: every path is enumerated explicitly and a
         multiply-assigned local (a phi: drop flags, `a && b` temporaries, an inlined helper's return value) is resolved
         to the definition that was executed on that path.  Rows: (conditions, result, ()) like decision_rows_dp."""
@@ -531,7 +545,7 @@ class Body:
             if k == "bin":
                 return ("bin", rv["op"], resolve(rv["l"], last, depth), resolve(rv["r"], last, depth), rv.get("lty"))
             if k == "un":
-                return ("un", rv["op"], resolve(rv["x"], last, depth))
+                return ("un", rv["op"], resolve(rv["x"], last, depth), self.operand_ty(rv["x"]))
             if k == "cast":
                 return ("cast", rv["kind"], rv["from"], rv["to"], resolve(rv["x"], last, depth))
             if k == "discr":
@@ -562,9 +576,9 @@ class Body:
                 return ("bin", o[1], a, b2, o[4] if len(o) > 4 else None)
             if o[0] == "un" and o[1] == "Not":
                 a = fold(o[2])
-                if a[0] == "const" and a[1] in (0, 1):
+                if a[0] == "const" and a[1] in (0, 1) and (len(o) < 4 or o[3] in (None, "bool")):
                     return ("const", 1 - a[1], None, None)
-                return ("un", "Not", a)
+                return ("un", "Not", a) + tuple(o[3:])
             return o
 
         def norm_cond(o, kind, vals, listed):
@@ -582,7 +596,7 @@ class Body:
                     return ("cond", fmt_origin(a), "eq" if equal else "ne", (b2[1],), freeze(a))
             return ("cond", fmt_origin(o), kind, tuple(vals), freeze(o))
 
-        def go(bb, last, conds, visited):
+        def go(bb, last, conds, visited, trace=()):
             count[0] += 1
             if count[0] > limit:
                 raise Undecidable("too many paths in %s" % self.name)
@@ -593,6 +607,9 @@ class Body:
                     last[st["place"]["l"]] = ("stmt", bb, i)
             t = bl["term"]
             k = t["k"] if t else "none"
+            if events and k == "call" and not is_tracing(t):
+                dd_, rd_, ga_, _fn = callee(t)
+                trace = trace + (("call", bb, dd_, rd_, freeze([resolve(a, last) for a in t["args"]]), freeze(list(ga_ or [])), t.get("dty")),)
             if k == "call" and not t["dest"]["p"] and (t["dest"]["l"] in multi or t["dest"]["l"] == 0):
                 last[t["dest"]["l"]] = ("call", bb, -1)
             if k == "return":
@@ -616,12 +633,12 @@ class Body:
                         ret = ("ret", "call:%s" % (rd or dd), tuple(fmt_origin(x) for x in oo), freeze(oo))
                 else:
                     ret = ("ret", "none", ())
-                rows.add((tuple(conds), ret, ()))
+                rows.add((tuple(conds), ret, trace))
                 return
             if k in ("unreachable",):
                 return
             if k in ("resume", "terminate", "coroutine_drop") or (k == "call" and t.get("target") is None):
-                rows.add((tuple(conds), ("ret", "diverge", ()), ()))
+                rows.add((tuple(conds), ("ret", "diverge", ()), trace))
                 return
             if k == "switch":
                 o = fold(resolve(t["discr"], last))
@@ -631,9 +648,9 @@ class Body:
                     want = [tb for v, tb in tg if v == o[1]]
                     nxt = want[0] if want else t["otherwise"]
                     if (bb, nxt) in back or nxt in visited:
-                        rows.add((tuple(conds), ("ret", "loop", ()), ()))
+                        rows.add((tuple(conds), ("ret", "loop", ()), trace))
                         return
-                    return go(nxt, last, conds, visited | {bb})
+                    return go(nxt, last, conds, visited | {bb}, trace)
                 noise = "tracing" in str(o) or o[0] in ("phi", "deep", "unknown", "rv")
                 for s in sorted(set(self.succs()[bb])):
                     vals = [v for v, tb in tg if tb == s]
@@ -646,17 +663,17 @@ class Body:
                         else:
                             c = ("cond", fmt_origin(o), "any", tuple(vals), freeze(o))
                     if (bb, s) in back or s in visited:
-                        rows.add((tuple(conds + ([c] if c else [])), ("ret", "loop", ()), ()))
+                        rows.add((tuple(conds + ([c] if c else [])), ("ret", "loop", ()), trace))
                         continue
-                    go(s, last, conds + ([c] if c else []), visited | {bb})
+                    go(s, last, conds + ([c] if c else []), visited | {bb}, (trace + (c,)) if (events and c) else trace)
                     if noise:
                         break        # one representative edge of a tracing / undecidable switch is enough
                 return
             for s in self.succs()[bb]:
                 if (bb, s) in back or s in visited:
-                    rows.add((tuple(conds), ("ret", "loop", ()), ()))
+                    rows.add((tuple(conds), ("ret", "loop", ()), trace))
                     continue
-                go(s, last, conds, visited | {bb})
+                go(s, last, conds, visited | {bb}, trace)
 
         import sys
         old = sys.getrecursionlimit()
@@ -867,7 +884,7 @@ class Body:
         if k == "bin":
             return ("bin", rv["op"], self.origin(rv["l"], depth + 1, seen), self.origin(rv["r"], depth + 1, seen), rv.get("lty"))
         if k == "un":
-            return ("un", rv["op"], self.origin(rv["x"], depth + 1, seen))
+            return ("un", rv["op"], self.origin(rv["x"], depth + 1, seen), self.operand_ty(rv["x"]))
         if k == "discr":
             return ("discr", self.origin(rv["place"], depth + 1, seen), rv.get("of"))
         if k == "agg":
